@@ -5,6 +5,11 @@ HERE = os.path.dirname(os.path.dirname(os.path.abspath(__file__)))
 ALL = ["C%02d" % i for i in range(1, 21)]
 # id -> (category, engine, technique, level text, level note, design ref)
 CHECKS = {
+ "C10": ("model_checking", "E1-choice",
+   "complete enumeration of all number-format token sequences up to length 3/4 through the real classifier vs a token-level reference + full product of style tables x number encodings x date systems in three formats",
+   "(a) all 143 k (thorough 7.5 M) sequences over a 52-token alphabet of the number-format grammar are classified by the real detect_custom_number_format and compared with a token-level reference (first section only; literals, escapes and bracket prefixes do not count); every built-in id 0-22, 37-49 through both lookup functions. (b) the full product (about 16 k files) of 14 style kinds, 5 serials, both date systems, XF position, out-of-range style index and every number encoding of xlsx / xls / xlsb is read end to end: variant, flavour, serial and is_1904 must match.",
+   "Trusted: the token classes of props/c10.rs; token sequences mixing General/@ with date tokens, digit placeholders or separators, and elapsed tokens after a date token, are outside the grammar and skipped; locale-dependent built-in ids not asserted.",
+   "DESIGN.md §2 C10"),
  "C19": ("model_checking", "E1-choice",
    "stateless choice-tree exploration of atom strings x every storage form of all four formats on the real readers",
    "All 2955 strings of <=3 atoms over 14 atoms (XML specials, spaces, tab, LF, ]]>, Latin-1, BMP, astral) plus the empty and a 32767-character string are written in every storage form: xlsx shared/inline/formula string x entity/decimal/hex references/CDATA x plain/1-3 rich runs/phonetic runs x empty <si/> before or between x prefix; xlsb Isst (plain/rich/phonetic)/St/FmlaString; xls SST (plain/rich/ExtRst)/LABEL/STRING in both packings; ods content (text:s variants, literal spaces, spans, paragraphs) or attribute. Exact string equality, and the neighbouring string must be unaffected.",
